@@ -16,10 +16,12 @@ from the present fields; factory results are fresh per load; post-init hooks ran
 from __future__ import annotations
 
 import dataclasses
+import collections
 import enum
 import inspect
 import itertools
 import math
+import types
 import typing
 from decimal import Decimal
 from fractions import Fraction
@@ -171,8 +173,31 @@ def st_case(draw):
     # what a present field holds: a unique object, or one of the falsy singletons a careless "is it there?" test confuses
     # with absence
     pvals = [draw(st.sampled_from(["u", "u", "u", "None", "None", "0", "False", "empty_str", "empty_tuple"])) for _ in fields]
+    # the mapping the fields arrive in: for some, ``data[key]`` of an ABSENT key answers (``__missing__``) or the mapping is not a
+    # dict at all -- "absent" is what ``key in data`` says
+    mapping = draw(st.sampled_from(["dict", "dict", "dict", "dict", "defaultdict", "counter", "missing_dict", "mappingproxy",
+                                    "chainmap"]))
     return {"kind": kind, "fields": fields, "present": present, "layout": layout, "debug": draw(st.integers(0, 2)),
-            "hooks": draw(st.booleans()), "pvals": pvals}
+            "hooks": draw(st.booleans()), "pvals": pvals, "mapping": mapping}
+
+
+class MissingDict(dict):
+    def __missing__(self, key):
+        return 0
+
+
+def wrap_mapping(datum: dict, how: str):
+    if how == "defaultdict":
+        return collections.defaultdict(lambda: ("made-by-missing",), datum)
+    if how == "counter":
+        return collections.Counter(datum)
+    if how == "missing_dict":
+        return MissingDict(datum)
+    if how == "mappingproxy":
+        return types.MappingProxyType(datum)
+    if how == "chainmap":
+        return collections.ChainMap({}, datum)
+    return datum
 
 
 # ------------------------------------------------------------------------------------ model construction
@@ -369,6 +394,7 @@ def check_case(ctx: runner.Ctx, case):  # noqa: C901, PLR0912, PLR0915
                  for f in fields if f["n"] in present}
         if kind == "attrs":
             datum = {(f["n"].lstrip("_") if False else tspec.model_key(f["n"])): present[f["n"]] for f in fields if f["n"] in present}
+        datum = wrap_mapping(datum, case.get("mapping", "dict"))
     absent = [f for f in fields if f["n"] not in present]
     lookalike = any(f["d"][0] == "v" and f["d"][1] not in ("'x'", "-1", "2**70", "bytes_a") for f in absent) or \
         any(f["d"][0] in ("f", "fs") for f in absent)
@@ -377,6 +403,7 @@ def check_case(ctx: runner.Ctx, case):  # noqa: C901, PLR0912, PLR0915
     ctx.case([case], bool(absent) and (lookalike or skipped_then_present),
              sample={"kind": kind, "fields": fields, "present": sorted(present), "layout": case["layout"], "debug": case["debug"]},
              labels=[f"kind:{kind}", f"layout:{case['layout']}", f"absent:{min(len(absent), 3)}",
+                     *([f"mapping:{case.get('mapping', 'dict')}"] if case["layout"] != "list" else []),
                      *[f"present_value:{pv}" for f, pv in zip(fields, pvals) if f["n"] in present and f["d"] is not None],
                      *(["skipped_then_present"] if skipped_then_present else []),
                      *[f"pk:{f['pk']}" for f in fields], *[f"default:{f['d'][0]}" for f in fields if f["d"]]])
